@@ -7,6 +7,12 @@ for e in ["REPT_step", "IRP_step"]:
     GROUPS.append(G("rep_" + e, SRC, "h_" + e, enforce=[], link=["asmdef.c"], stubs=["stubs/gerr.c"], unwind=8, timeout=600, dfcc=False,
                     object_bits=12, defs=["-DSTRINGSIZE=64"], functions=["REPT_Processor", "REPT_GetPos"] if e.startswith("REPT") else ["IRP_Processor", "IRP_GetPos"],
                     bounded="body of at most 3 lines, at most 4 IRP parameters, IRPN group size <= 2 (list walks unwound); iteration counts unbounded"))
+for e in ("IsValidParameterName", "SetToken"):
+    GROUPS.append(G("sub_" + e, "harness/C19/h_asmsub.c", "h_" + e, enforce=[], link=[], stubs=["stubs/gerr.c"], unwind=4, timeout=300,
+                    dfcc=False, object_bits=12, functions=[e, "CompressLine_NErl"] if e == "IsValidParameterName" else [e]))
+GROUPS.append(G("sub_CompressLine_short", "harness/C19/h_asmsub.c", "h_CompressLine_short", enforce=[], link=[], stubs=["stubs/gerr.c"], unwind=16, timeout=600,
+                dfcc=False, object_bits=12, functions=["CompressLine", "ReplaceLine", "ReplaceToken", "IsValidParameterName"],
+                bounded="lines of at most 6 characters without backslash, one-letter parameter name, case-sensitive"))
 TRUSTED_BASE = ["as_dynstr_copy_c_str / ExpandLine / local-handle stubs log their arguments"]
 ASSUMPTIONS = []
 NOT_COVERED = ["ExpandMacro (argument binding)", "ReadMacro", "WHILE_Processor", "INCLUDE/BINCLUDE", "token substitution in asmsub.c"]
